@@ -32,6 +32,10 @@ Lemma wp_conseq {A} (m : M A) (Q Q' : A -> pset -> Prop) s :
   wp m Q s -> (forall a s', Q a s' -> Q' a s') -> wp m Q' s.
 Proof. intros H HQ r Hr. specialize (H r Hr). destruct r; auto. Qed.
 
+Lemma wp_in {A} (m : M A) (Q : A -> pset -> Prop) s :
+  wp m Q s -> wp m (fun a s' => Q a s' /\ In (Ret a s') (m s)) s.
+Proof. intros H r Hr. specialize (H r Hr). destruct r; auto. Qed.
+
 Lemma wp_get (Q : pset -> pset -> Prop) s : Q s s -> wp get Q s.
 Proof. intros H r [<-|[]]. exact H. Qed.
 
